@@ -6,6 +6,7 @@ Line formats (all values hex, `-` = empty):
 Responses: `ok <stdout-hex>` (exit 0), `err` (exit 255 = ordinary error; stdout must be empty),
 `usage` (exit 2, clap), `panic` (exit 101), `signal`, `timeout`.
 """
+import hashlib
 import os
 import tempfile
 from vlib import core
@@ -106,6 +107,16 @@ def run_cli(case):
     if op == "cli.hash_message":
         kind, out, _ = run_simple(["hash", "message", "@INPUT@"], unhx(parts[1]), via_file=vf)
         return render(kind, out)
+    if op == "cli.hash_message_rep":
+        # cli.hash_message_rep <n> <byte>: n copies of one byte (large inputs without large op lines)
+        kind, out, _ = run_simple(["hash", "message", "@INPUT@"], bytes([int(parts[2])]) * int(parts[1]), via_file=vf, timeout=120)
+        return render(kind, out)
+    if op == "cli.hash_data_rep":
+        kind, out, _ = run_simple(["hash", "data", "@INPUT@"], bytes([int(parts[2])]) * int(parts[1]), via_file=vf, timeout=120)
+        return render(kind, out)
+    if op == "cli.hex_encode_rep":
+        kind, out, _ = run_simple(["hex", "encode", "@INPUT@"], bytes([int(parts[2])]) * int(parts[1]), via_file=vf, timeout=120)
+        return render(kind, hashlib.sha256(out).hexdigest().encode() + b" %d" % len(out)) if kind == "ok" else render(kind, out)
     if op == "cli.hash_tx":
         argv = ["hash", "transaction"] + ([] if parts[2] == "none" else ["--signature=" + utf8(parts[2])]) + ["@INPUT@"]
         kind, out, _ = run_simple(argv, unhx(parts[1]), via_file=vf)
